@@ -45,6 +45,7 @@ func checkC07(r *Report, p *Program) {
 	containerBuilders(r, p, "R07.18")
 	// conditions are parsed field by field only where the field has the expected type (shared with C13)
 	commaOkValuesUsedWhenOk(r, p, "R07.19", 20)
+	freshDecodeTargets(r, p, "R07.20")
 }
 
 // r07_9: which fields are revisioned. The default (all of spec) applies whenever the
